@@ -37,6 +37,7 @@ fn s<'a>(a: &'a Value, k: &str) -> &'a str {
 pub fn exec(sim: &mut Sim, ev: &str, a: &Value) -> Result<(), String> {
     sim.last_sent.clear();
     sim.last_panic = None;
+    sim.last_delivered.clear();
     if matches!(ev, "Spawn" | "Despawn" | "Mark" | "Unmark" | "Insert" | "Remove" | "Mutate" | "Relate" | "Unrelate")
         && !sim.op_enabled(ev, a)
     {
@@ -83,13 +84,13 @@ pub fn exec(sim: &mut Sim, ev: &str, a: &Value) -> Result<(), String> {
             }
         }
         "DeliverEvS" => {
-            let ch = a["ch"].as_u64().unwrap() as usize;
+            let ch = sim.sev_ch(s(a, "t"));
             if !sim.deliver_s2c(s(a, "c"), ch, a["pos"].as_u64().unwrap_or(0) as usize) {
                 return Err("no event message".into());
             }
         }
         "DeliverEvC" => {
-            let ch = a["ch"].as_u64().unwrap() as usize;
+            let ch = sim.cev_ch(s(a, "t"));
             if !sim.deliver_c2s(s(a, "c"), ch, a["pos"].as_u64().unwrap_or(0) as usize) {
                 return Err("no event message".into());
             }
@@ -102,7 +103,11 @@ pub fn exec(sim: &mut Sim, ev: &str, a: &Value) -> Result<(), String> {
             sim.connect(s(a, "c"));
         }
         "Disconnect" => sim.disconnect(s(a, "c")),
-        "Authorize" => sim.authorize(s(a, "c")),
+        "Authorize" => {
+            if !sim.authorize(s(a, "c")) {
+                return Err("Authorize not enabled".into());
+            }
+        }
         "Stop" => sim.stop(),
         "Start" => sim.start(),
         "Prespawn" => sim.prespawn(s(a, "c"), s(a, "p")),
@@ -110,6 +115,19 @@ pub fn exec(sim: &mut Sim, ev: &str, a: &Value) -> Result<(), String> {
         "MapPre" => {
             if !sim.map_prespawned(s(a, "c"), s(a, "e"), s(a, "p")) {
                 return Err("MapPre not enabled".into());
+            }
+        }
+        "EmitS" => {
+            let to = a["to"].as_str().filter(|x| *x != "none");
+            let e = a["e"].as_str().filter(|x| *x != "none");
+            if !sim.emit_s(s(a, "t"), a["id"].as_u64().unwrap() as u32, s(a, "mode"), to, e) {
+                return Err("EmitS not enabled".into());
+            }
+        }
+        "EmitC" => {
+            let e = a["e"].as_str().filter(|x| *x != "none");
+            if !sim.emit_c(s(a, "c"), s(a, "t"), a["id"].as_u64().unwrap() as u32, e) {
+                return Err("EmitC not enabled".into());
             }
         }
         "Quiesce" | "AtRest" | "Init" => {}
@@ -142,7 +160,8 @@ impl<W: Write> Trace<W> {
     pub fn write(&mut self, sim: &Sim, ev: &str, args: &Value) {
         let line = json!({
             "run": self.run, "i": self.i, "ev": ev, "args": args,
-            "obs": {"sent": sim.last_sent, "panic": sim.last_panic.clone().unwrap_or_else(|| "none".into())},
+            "obs": {"sent": sim.last_sent, "delivered": sim.last_delivered,
+                    "panic": sim.last_panic.clone().unwrap_or_else(|| "none".into())},
             "post": sim.project(),
         });
         serde_json::to_writer(&mut self.out, &line).unwrap();
@@ -178,9 +197,23 @@ impl<W: Write> Trace<W> {
                 while sim.channel_len(c, "s2c", CH_MUT) > 0 {
                     self.step(sim, "DeliverMut", json!({"c": c, "pos": 0}));
                 }
+                if sim.cfg.events {
+                    for t in crate::events::SEV {
+                        while sim.channel_len(c, "s2c", sim.sev_ch(t)) > 0 {
+                            self.step(sim, "DeliverEvS", json!({"c": c, "t": t, "pos": 0}));
+                        }
+                    }
+                }
                 self.step(sim, "CliFrame", json!({"c": c, "dt": 0}));
                 while sim.channel_len(c, "c2s", CH_ACK) > 0 {
                     self.step(sim, "DeliverAck", json!({"c": c}));
+                }
+                if sim.cfg.events {
+                    for t in crate::events::CEV {
+                        while sim.channel_len(c, "c2s", sim.cev_ch(t)) > 0 {
+                            self.step(sim, "DeliverEvC", json!({"c": c, "t": t, "pos": 0}));
+                        }
+                    }
                 }
             }
         }
@@ -201,6 +234,7 @@ pub struct Profile {
     pub rel: bool,
     pub sess: bool,
     pub marks: bool,
+    pub events: bool,
     pub settle: usize,
     /// avoid histories matching open known-finding signatures
     pub clean: bool,
@@ -208,7 +242,7 @@ pub struct Profile {
 
 impl Default for Profile {
     fn default() -> Self {
-        Self { steps: 40, comps: vec!["A", "B"], vis: false, rel: false, sess: false, marks: true, settle: 4, clean: true }
+        Self { steps: 40, comps: vec!["A", "B"], vis: false, rel: false, sess: false, marks: true, events: false, settle: 4, clean: true }
     }
 }
 
@@ -223,8 +257,49 @@ pub fn random_run<W: Write>(tr: &mut Trace<W>, cfg: Cfg, prof: &Profile, seed: u
     tr.step(&mut sim, "SrvFrame", json!({"tick": false, "dt": 0}));
     for c in &clients {
         tr.step(&mut sim, "Connect", json!({"c": c}));
+        if sim.cfg.auth == "custom" && rng.chance(2, 3) {
+            tr.step(&mut sim, "Authorize", json!({"c": c}));
+        }
     }
+    let mut next_id: u32 = 0;
     for _ in 0..prof.steps {
+        if prof.events && rng.chance(1, 3) {
+            // event traffic
+            let c = rng.pick(&clients).clone();
+            let e = if rng.chance(1, 2) { rng.pick(&ents).clone() } else { "none".to_string() };
+            next_id += 1;
+            match rng.below(10) {
+                0..=3 => {
+                    let t = *rng.pick(&crate::events::SEV);
+                    let (mode, to) = match rng.below(4) {
+                        0 | 1 => ("all", "none".to_string()),
+                        2 => ("except", c.clone()),
+                        _ => ("direct", c.clone()),
+                    };
+                    let e = if t == "SMap" && e == "none" { ents[0].clone() } else if t == "SOrd" || t == "SInd" { "none".into() } else { e };
+                    tr.step(&mut sim, "EmitS", json!({"t": t, "id": next_id, "mode": mode, "to": to, "e": e}));
+                }
+                4..=5 => {
+                    let t = *rng.pick(&crate::events::CEV);
+                    let e = if t == "CMap" && e == "none" { ents[0].clone() } else if t == "COrd" { "none".into() } else { e };
+                    tr.step(&mut sim, "EmitC", json!({"c": c, "t": t, "id": next_id, "e": e}));
+                }
+                6..=7 => {
+                    let t = *rng.pick(&crate::events::SEV);
+                    tr.step(&mut sim, "DeliverEvS", json!({"c": c, "t": t, "pos": 0}));
+                }
+                8 => {
+                    let t = *rng.pick(&crate::events::CEV);
+                    tr.step(&mut sim, "DeliverEvC", json!({"c": c, "t": t, "pos": 0}));
+                }
+                _ => {
+                    if sim.cfg.auth == "custom" {
+                        tr.step(&mut sim, "Authorize", json!({"c": c}));
+                    }
+                }
+            }
+            continue;
+        }
         let e = rng.pick(&ents).clone();
         let c = rng.pick(&clients).clone();
         let k = *rng.pick(&prof.comps);
